@@ -61,7 +61,7 @@ KEY_TYPES = [
     ('Inet', 'inet', ['0.0.0.0', '255.255.255.255', '::1', '2001:db8::ff00:42:8329']),
 ]
 TYPE_BY_NAME = dict((n, (c, v)) for n, c, v in KEY_TYPES)
-REDUCED = ['Integer', 'Text', 'UUID', 'Blob', 'Boolean', 'VarInt']
+REDUCED = ['Integer', 'Text', 'UUID', 'Blob', 'VarInt']
 
 _world = {}
 
@@ -105,6 +105,8 @@ def picks(names, mode):
     if mode == 'all':
         return list(itertools.product(*lists))
     n = max(len(l) for l in lists)
+    if mode == 'cyclic3':
+        n = min(n, 3)
     out = []
     for i in range(n):
         out.append(tuple(l[(i + j) % len(l)] for j, l in enumerate(lists)))
@@ -150,55 +152,68 @@ def run_case(part, names, values, serial, db_field=False, compute=True):
         return calls
 
     present = compute
-    inst = M.create(c=ckval, v=1, **keykw)
-    check('create', present)
-    inst.update(v=2)
-    check('inst-update', present)
-    inst.st = stval
-    inst.v = None
-    inst.save()
-    check('inst-save', present)
-    inst.delete()
-    check('inst-delete', present)
+
+    def step(label, want_present, fn):
+        """Run one cqlengine call; an exception out of a legitimate call is a failure of the routing-key
+        computation (nothing else can fail against the fake session)."""
+        try:
+            fn()
+        except HarnessError:
+            raise
+        except Exception as e:
+            s.take()
+            part.count('evaluations')
+            part.violation('C38/raises/%s/%s' % (label, type(e).__name__),
+                           '%s raised %r for key types %r values %r' % (label, e, names, values), dict(case, label=label))
+            return False
+        check(label, want_present)
+        return True
+
+    holder = {}
+
+    def do_create():
+        holder['inst'] = M.create(c=ckval, v=1, **keykw)
+    if not step('create', present, do_create):
+        return
+    inst = holder['inst']
+    step('inst-update', present, lambda: inst.update(v=2))
+
+    def do_save():
+        inst.st = stval
+        inst.v = None
+        inst.save()
+    step('inst-save', present, do_save)
+    step('inst-delete', present, lambda: inst.delete())
     orders = [list(keykw.items())]
     if len(names) > 1:
         orders.append(list(reversed(list(keykw.items()))))
     for oi, items in enumerate(orders):
         tag = '' if oi == 0 else '-rev'
-        q = M.objects.filter(**dict(items))
-        list(q)
-        check('qs-select' + tag, present)
-        M.objects.filter(**dict(items)).count()
-        check('qs-count' + tag, present)
-        M.objects.filter(**dict(items)).filter(c=ckval).update(v=3)
-        check('qs-update' + tag, present)
-        M.objects.filter(**dict(items)).delete()
-        check('qs-delete' + tag, present)
-    # chained one filter() per component
-    q = M.objects
-    for k, v in keykw.items():
-        q = q.filter(**{k: v})
-    list(q.filter(c=ckval))
-    check('qs-select-chained', present)
+        step('qs-select' + tag, present, lambda: list(M.objects.filter(**dict(items))))
+        step('qs-count' + tag, present, lambda: M.objects.filter(**dict(items)).count())
+        step('qs-update' + tag, present, lambda: M.objects.filter(**dict(items)).filter(c=ckval).update(v=3))
+        step('qs-delete' + tag, present, lambda: M.objects.filter(**dict(items)).delete())
+
+    def chained():
+        q = M.objects
+        for k, v in keykw.items():
+            q = q.filter(**{k: v})
+        list(q.filter(c=ckval))
+    step('qs-select-chained', present, chained)
     # key not fully fixed
     if len(names) > 1:
         for drop in range(len(names)):
             kw = dict((k, v) for i, (k, v) in enumerate(keykw.items()) if i != drop)
-            list(M.objects.filter(**kw).allow_filtering())
-            check('partial-select', False)
-            M.objects.filter(**kw).filter(c=ckval).update(v=4)
-            check('partial-update', False)
-    kw = dict(keykw)
-    kw['k0__in'] = [kw.pop('k0')]
-    list(M.objects.filter(**kw).allow_filtering())
-    check('in-select', False)
+            step('partial-select', False, lambda: list(M.objects.filter(**kw).allow_filtering()))
+            step('partial-update', False, lambda: M.objects.filter(**kw).filter(c=ckval).update(v=4))
+    kw1 = dict(keykw)
+    kw1['k0__in'] = [kw1.pop('k0')]
+    step('in-select', False, lambda: list(M.objects.filter(**kw1).allow_filtering()))
     if names[0] not in ('Boolean',):
-        kw = dict(keykw)
-        kw['k0__gte'] = kw.pop('k0')
-        list(M.objects.filter(**kw).allow_filtering())
-        check('range-select', False)
-    list(M.objects.filter(c=ckval).allow_filtering())
-    check('no-key-select', False)
+        kw2 = dict(keykw)
+        kw2['k0__gte'] = kw2.pop('k0')
+        step('range-select', False, lambda: list(M.objects.filter(**kw2).allow_filtering()))
+    step('no-key-select', False, lambda: list(M.objects.filter(c=ckval).allow_filtering()))
     part.sample({'case': case, 'expected_routing_key': expected}, limit=2)
 
 
@@ -217,13 +232,13 @@ def cases(ctx):
             out.append(((n,), vals, False, True))
     for a in names:
         for b in names:
-            for vals in picks((a, b), 'cyclic' if ctx.quick else 'all'):
+            for vals in picks((a, b), 'cyclic3' if ctx.quick else 'all'):
                 out.append(((a, b), vals, False, True))
     tri = REDUCED if ctx.quick else names
     for a in tri:
         for b in tri:
             for c in tri:
-                for vals in picks((a, b, c), 'cyclic'):
+                for vals in picks((a, b, c), 'cyclic3' if ctx.quick else 'cyclic'):
                     out.append(((a, b, c), vals, False, True))
     # renamed db_field on the first key column; routing disabled by the model
     for a in names:
@@ -244,10 +259,10 @@ def run(ctx):
         ctx.merge(part)
     ctx.count('models', len(cs))
     ctx.cov['rule'] = ('%d generated (model, key values) cases: every single key class x every boundary value; every ordered pair of the '
-                       '18 classes (%s value tuples); triples over %s; plus db_field-renamed first key and __compute_routing_key__=False '
+                       '18 classes (%s value tuples: cyclic = i-th boundary value of each class for every i, cyclic3 = the first three of those); triples over %s; plus db_field-renamed first key and __compute_routing_key__=False '
                        'per class; each case runs 4 instance statements, 4-8 query-set statements with a full key and the partial / IN / range '
                        '/ no-key selects; an evaluation = one executed statement; non-trivial = (key classes, statement kind) whose routing key '
-                       'was present and equal to the reference' % (len(cs), 'cyclic' if ctx.quick else 'all',
+                       'was present and equal to the reference' % (len(cs), 'cyclic3' if ctx.quick else 'all',
                                                                 'the reduced list %r' % REDUCED if ctx.quick else 'all 18 classes'))
     ctx.cov['exhaustive'] = True
     ctx.assume('Cassandra hashes: single-component key = the value bytes; composite = per component 2-byte big-endian length, bytes, 0x00')
